@@ -1,7 +1,7 @@
 (* C27 -- Byte-level BPE tokenization round-trips and reports consistent offsets.
    Only statements; every proof is `exact <lemma>`. *)
 From RV Require Import Prelude.
-From Bpe Require Import ModelBpe Ref_proofs Merge_proofs Encode_proofs Roundtrip_proofs Offsets_proofs.
+From Bpe Require Import ModelBpe Ref_proofs Merge_proofs Encode_proofs Roundtrip_proofs Offsets_proofs Vocab_proofs.
 Open Scope N_scope.
 
 (* (1) byte_to_char / char_to_byte are mutually inverse on the 256 bytes (finite part by
@@ -41,6 +41,19 @@ Theorem C27_decode_encode : forall o b,
     forall text, utf8_valid text = true ->
     exists ids offs, tk_encode b text None (pretok text) = Ok (ids, offs) /\ decode b ids = DecOk text.
 Proof. exact decode_encode_pretok. Qed.
+
+(* (3'') with the generated default vocabulary (BpeOptions::vocab = None) nothing has to be
+         assumed about the vocabulary: any merge list the constructor accepts *)
+Theorem C27_decode_encode_default_vocab : forall merges added ig b,
+  let o := {| o_merges := merges; o_vocab := None; o_added := added; o_eow := None; o_ignore := ig |} in
+  N.of_nat (length merges) + 256 <= 4294967296 ->
+  added_ok (build_vocab merges None) added ->
+  bpe_new o = inl b ->
+  forall pretok : list N -> list piece,
+    (forall text, utf8_valid text = true -> pieces_cover text (pretok text) = true) ->
+    forall text, utf8_valid text = true ->
+    exists ids offs, tk_encode b text None (pretok text) = Ok (ids, offs) /\ decode b ids = DecOk text.
+Proof. exact decode_encode_default_vocab. Qed.
 
 (* (3') the same with a normalizer that leaves this text unchanged ("no lossy normalization")
         and whose offset map is defined on the text *)
